@@ -141,7 +141,21 @@ def main(chk):
                 chk.count("distinct_pairs_equal")
         events.append(ev)
         chk.count("type_" + a["t"])
-    slim = [{k: e[k] for k in ("id", "a", "optional_ok", "refl", "rebuilt_eq", "ne_ok", "sym_ok", "trans_ok", "value_ok",
+    # the relation must not depend on what has been done with the schemas in the meantime: every
+    # schema is put to every public use, then the whole relation is taken again
+    from .common import exercise
+    for _, x in reals:
+        exercise(x)
+    for i, (_, x) in enumerate(reals):
+        row_same = True
+        for j, (_, y) in enumerate(reals):
+            try:
+                if bool(x == y) != eq[i][j] or bool(x != y) == eq[i][j]:
+                    row_same = False
+            except Exception:
+                row_same = False
+        events[i]["stable"] = row_same
+    slim = [{k: e[k] for k in ("id", "a", "optional_ok", "stable", "refl", "rebuilt_eq", "ne_ok", "sym_ok", "trans_ok", "value_ok",
                                "equals")} for e in events]
     for e in slim:
         e["equals"] = [{"b": x["b"], "probes": x["probes"]} for x in e["equals"]]
